@@ -704,7 +704,9 @@ def random_dep(rng):
     if k == "param":
         return ["param", "p.yaml", rng.choice(["a", "b"])]
     if k in ("lines", "line_items"):
-        return [k, rng.choice(["f0.txt", "f1.txt"]), 0, 2]
+        # ranges that do not start at line 0 too: lines after the range (and before begin + end) must not matter
+        b_, e_ = rng.choice([(0, 2), (0, 2), (1, 3), (2, 4)])
+        return [k, rng.choice(["f0.txt", "f1.txt"]), b_, e_]
     if k in ("regex", "regex_items"):
         return [k, "f1.txt", "^k"]
     return ["generic", "f2.txt"]
@@ -782,7 +784,7 @@ def random_edit(rng, sc, fs, failing):
     if k == "crlf":
         return ["crlf", rng.choice(base)]
     if k == "setline":
-        return ["setline", rng.choice(base), rng.choice([0, 1, 3, 4]), "k9 edited%d" % rng.randrange(100)]
+        return ["setline", rng.choice(base), rng.choice([0, 1, 2, 3, 4]), "k9 edited%d" % rng.randrange(100)]
     if k in ("add", "remove", "gtouch", "gappend", "grename"):
         pat = rng.choice(globs)
         ms = members(fs, pat)
